@@ -174,7 +174,9 @@ func (f *indexedField) deepEqual(other *indexedField) bool {
 }
 
 func (f *indexedField) greater(other *indexedField) bool {
-	return !f.less(other) && !f.equal(other)
+	// not defined as "neither less nor equal", which
+	// holds for values which cannot be ordered (NaN)
+	return other.less(f)
 }
 
 func (f *indexedField) less(other *indexedField) bool {
